@@ -11,6 +11,7 @@ from typing import TextIO
 from typing import cast
 
 from markupsafe import Markup
+from markupsafe import escape
 
 from liquid2 import Tag
 from liquid2 import TagToken
@@ -166,15 +167,16 @@ class TranslateNode(Node, TranslatableTag):
         """
         message_context = block_scope.pop(self.message_context_var, None)
         if message_context:
-            if context.env.auto_escape:
-                # What the catalog answers with is written as markup. Like the
-                # translation filters, don't hand it unescaped text to answer with.
-                return to_liquid_string(message_context, auto_escape=True)
-            return (
+            message_context = (
                 str(message_context)
                 if not isinstance(message_context, str)
                 else message_context
             )  # Just in case we get a Markupsafe object.
+            if context.env.auto_escape:
+                # What the catalog answers with is written as markup. Like the
+                # translation filters, don't hand it unescaped text to answer with.
+                return escape(message_context)
+            return message_context
         return None
 
     def gettext(
